@@ -8,7 +8,9 @@ abstract (typed) stack of the program generator: ('nat',), ('pair', a, b), ('opt
 
 ATOMS = ['nat', 'int', 'string', 'bytes', 'bool', 'unit']
 KEY_ATOMS = ['nat', 'int', 'string']
-NAMES = ['a', 'b', 'c', 'x', 'y', 'foo', 'bar', 'k_1', 'T0', 'nat_1']
+NAMES = ['a', 'b', 'c', 'x', 'y', 'foo', 'bar', 'k_1', 'T0', 'nat_1',
+         # the annotation grammar `[@:%][_0-9a-zA-Z][_0-9a-zA-Z\.%@]*`: the sigils may occur again after the first character
+         'pct%', 'amount%mutez', 'a@b', 'x.y', '_z']
 # children of these cannot carry a %field annotation (Michelson rule, asserted by pytezos' create_type)
 NO_FIELD_CHILD = {'option', 'list', 'set', 'map', 'big_map', 'lambda', 'contract', 'ticket'}
 
